@@ -146,14 +146,32 @@ impl Drop for LogStream {
     }
 }
 
+/// poll a future on the calling thread, giving up after `budget`
+fn block_on_timeout<F: std::future::Future>(fut: F, budget: Duration) -> Option<F::Output> {
+    struct ThreadWaker(std::thread::Thread);
+    impl std::task::Wake for ThreadWaker {
+        fn wake(self: Arc<Self>) {
+            self.0.unpark();
+        }
+    }
+    let waker = std::task::Waker::from(Arc::new(ThreadWaker(std::thread::current())));
+    let mut cx = std::task::Context::from_waker(&waker);
+    let mut fut = std::pin::pin!(fut);
+    let deadline = Instant::now() + budget;
+    loop {
+        if let std::task::Poll::Ready(v) = fut.as_mut().poll(&mut cx) {
+            return Some(v);
+        }
+        let now = Instant::now();
+        if now >= deadline {
+            return None;
+        }
+        std::thread::park_timeout(deadline - now);
+    }
+}
+
 fn block_on_flush(s: &BoxEntrySink) -> bool {
-    let f = AnyEntrySink::flush_async(s);
-    let (tx, rx) = mpsc::channel();
-    std::thread::spawn(move || {
-        futures::executor::block_on(f);
-        let _ = tx.send(());
-    });
-    rx.recv_timeout(BUDGET).is_ok()
+    block_on_timeout(AnyEntrySink::flush_async(s), BUDGET).is_some()
 }
 
 // ------------------------------------------------------------------------------------------
